@@ -13,21 +13,31 @@ codes (gap, hunk, gap, ... — the segmentation of the basis/working text pair b
 the diff's hunks).  `shelveEntry` gives, per file id, the working-tree entry
 after shelving and the entry of the stored shelf tree; `mergeEntry` is the
 per-attribute three-way merge (every attribute through C18.threeWay, chunk-wise
-for two texts with the same segmentation); `shelve` = work transform (refused
-when the result is not a well-formed tree) and `unshelve` = merge3 BASE THIS
-OTHER.  `Mgr.*` is the shelf-id allocator over the directory listing.
+for two texts with the same segmentation); `shelve` = write_shelf (with the
+closedness check of the repaired code when the probed `closedCheck` is set:
+ShelveErr.unclosed) + work transform (refused when the result is not a
+well-formed tree); `unshelveTree` = read the stored tree back (possible only
+when it is a tree) and merge3 BASE THIS OTHER id by id; `shelveMissing` /
+`unshelveMissing` = the versioned-but-missing set; `Mgr.*` is the shelf-id
+allocator over the directory listing and `Mgr.runC` the shelves with their
+payload (compared with what each live shelf of the long stream holds).
 
-T2: random 2a / knit-era working trees (dirs, multi-hunk texts, symlinks, exec
-bits) + 1..6 pending changes made through the real WorkingTree API (edit,
-retarget, rename, move, add file/dir/symlink, delete by remove / rm (missing) /
-remove --keep, kind changes, chmod).  The atomic shelvable items are what the
+T2: random 2a / knit-era working trees (dirs, an empty dir, multi-hunk texts,
+symlinks, exec bits) + 2..6 pending changes made through the real WorkingTree
+API (edit, edit with >= 2 distant hunks, retarget, rename, move, name swap,
+move into a newly added directory, all children moved out of a directory that
+becomes a file, add file/dir/symlink, delete by remove /
+rm (missing) / remove --keep, kind changes incl. file -> dir and dir -> file,
+chmod).  The atomic shelvable items are what the
 real `iter_shelvable` yields, a `modify text` being split into the hunks of the
 real diff.  EVERY subset of the items (<= 6 items; larger sets sampled) is
 shelved on a fresh copy through ShelfCreator (+ scripted Shelver._select_hunks
 for partial texts), then: dump of the working tree, dump of the stored shelf
 tree, shelf list; unshelve through Unshelver.make_merger().do_merge(), dump,
-shelf list.  All three dumps, accept/reject of the work transform and the
-conflict count are compared with the Lean model.  A second stream drives one
+shelf list.  All three dumps, the versioned-but-missing sets after shelve and
+after unshelve, accept/reject and the conflict count are compared with the
+Lean model (stored tree and unshelve result only for closed selections; for the
+others the model's answer is "unreadable").  A second stream drives one
 ShelfManager with random shelve / delete / unshelve / stray-file sequences and
 compares ids, listings and the parsing of shelf file names with `Mgr`; a third (run first: corpus/C15 + per
 seed) drives a real ShelfManager through >= 12 shelves with interleaved deletes across the 9 -> 10 id
@@ -38,11 +48,44 @@ git working trees: shelving is refused (ShelvingUnsupported) — checked to leav
 the tree unchanged.
 Oracle (no model): after shelving, every id has the basis value for each
 selected aspect and the working value for every other aspect (texts: basis +
-unselected hunks spliced by the harness's own code); nothing else on disk
-changed; after unshelving the dump equals the dump before shelving, no
-conflicts, no new unversioned files; the new shelf id is not among the active
-ones and exceeds them, listing = before + {id}, deletion removes exactly that
-id, the other shelves keep their message.
+unselected hunks spliced by the harness's own code); the versioned-but-missing
+files are the unselected ones; the real iter_changes reports exactly the ids
+that still differ from the basis; nothing else on disk changed; EVERY accepted
+selection — closed or not — must unshelve: the dump equals the dump before
+shelving, the versioned-but-missing set is the same, iter_changes is
+the same list as before shelving, no conflicts, no new unversioned files; a refused
+selection leaves tree, missing set and iter_changes untouched and must not be
+closed; the new shelf id is not among the active ones and exceeds them,
+listing = before + {id}, deletion removes exactly that id, the other shelves
+keep their message and (long stream) the change shelved under their id.
+A tree without commits (run_empty_basis): every subset of five additions,
+oracle only.  The four variant probes are themselves oracle cases: a probe that
+selects a defective behaviour is reported as a violation with its input.
+
+OPEN FINDINGS on /repo HEAD (ctx.violation with a family computed from the
+failing input; /repo exits 1 until they are triaged; patches and repro
+scripts under /var/tmp/imp-C15C16):
+  unclosed-selection-accepted           the tree to be stored (basis + selected changes, computed by the harness) is
+                                        not a tree (a file added in an added directory without the directory, a move
+                                        into an added directory, one half of a name swap, a removed directory without
+                                        its removed children, a new file on the path of a removed one without the
+                                        removal): the selection is accepted, the changes leave the working tree, and the
+                                        shelf cannot be read (NoFinalPath: data loss), merges with conflicts, or restores
+                                        a different tree.  Model: Variant.closedCheck (probed), ShelveErr.unclosed,
+                                        unclosed_accepted_witness.  One sub-case is refused by accident: when the tree
+                                        to be stored has an entry below a non-directory (a directory emptied by moves
+                                        and replaced by a file, kind change selected without the moves),
+                                        resolve_conflicts crashes with AttributeError ('DirStateRevisionTree' has no
+                                        supports_setting_file_ids) before anything is applied — modelled literally
+                                        (ShelveErr.resolveCrash, compared), counted, not a violation (tree unchanged).
+  missing-file-unversioned-by-unshelve  `rm t; shelve; unshelve`: t was versioned-but-missing, afterwards it is
+                                        unversioned (the stored tree cannot say "versioned, no contents"); classifier:
+                                        the only difference after unshelve is that selected deletions of missing files
+                                        lost their versioning.  Model: unshelveMissing, missing_restored_iff,
+                                        missing_unversioned_witness.
+  empty-basis-shelf-unreadable          tree without commits: `add f; shelve --all; unshelve` fails with NoFinalPath (the
+                                        root stored by write_shelf has no name), f is lost; classifier: basis without
+                                        root, closed non-empty selection, NoFinalPath.  Oracle only.
 
 Defects found by this check and repaired in /repo (a282db7, 1264e86, baa43bc); they are
 no longer classified: if one returns it is a plain VIOLATION (the "fix reverted"
@@ -59,11 +102,8 @@ theorems record the old failing inputs):
                                      two entries for one path
   unshelve onto a replaced path      PreviewTree._path2trans_id resolved a path to a deleted entry although a
                                      new entry had the name
-Not the property (counted in the evidence only): selections that are not closed
-(the stored tree would not be a tree: e.g. a move into an added directory
-without the directory) are accepted and write a shelf that cannot be read
-(NoFinalPath) or that merges with conflicts; a refused selection leaves its
-already written shelf file behind.
+Not the property (counted in the evidence only): a refused selection leaves
+its already written shelf file behind (stale-shelf-left-by-refused-transform).
 
 Mutants this was built against (scratch worktree; all caught by the oracle with
 a concrete input unless noted): shelve_rename restoring names[1]; new_shelf =
@@ -77,6 +117,10 @@ still works); the two fix: commits reverted (a282db7 -> plain VIOLATION "after s
 exec" / "cannot be read"; 1264e86 -> plain VIOLATION "unshelving ... does not restore it ... exec").  Equivalent, not caught by design: Merge3(new, work, target)
 with the two sides swapped.  Harmless rewrite kept clean: shelve_change as a
 dispatch table, active_shelves as a comprehension.
+Second round (against /repo + c15-all.diff, where only the missing-file family is left): the root exemption of the
+closedness check dropped (plain VIOLATION "empty basis: a closed selection was refused"); the check itself dropped =
+/repo HEAD (family unclosed-selection-accepted: probe + 13..22 scenario cases per seed); the Unshelver root repair dropped
+= /repo HEAD (family empty-basis-shelf-unreadable).
 """
 import io
 import os
@@ -88,21 +132,28 @@ from vlib import env
 
 THEOREMS = [
     "delta_empty_iff", "shelveWork_delta", "shelveShelf_delta", "shelve_chunks", "hunk_partition",
-    "shelve_removes_exactly", "unshelve_restores", "unshelve_restores_fixed",
+    "shelve_removes_exactly", "shelve_values", "shelve_nothing", "shelve_all", "shelve_all_eq_basis",
+    "unshelve_restores", "unshelve_restores_fixed", "shelve_ok_closed", "shelve_unshelve_restores",
+    "missing_restored_iff", "missing_unversioned_witness", "unclosed_accepted_witness",
     "exec_dropped_witness", "stale_exec_witness", "reoccupied_witness",
-    "Mgr.nextId_fresh", "Mgr.delete_keeps_others", "Mgr.shelf_ids_unique", "Mgr.new_after_new", "Mgr.id_reuse_witness",
+    "Mgr.nextId_fresh", "Mgr.delete_keeps_others", "Mgr.shelf_ids_unique", "Mgr.survives", "Mgr.new_after_new",
+    "Mgr.id_reuse_witness",
 ]
-RULE = ("scenario = (tree format, random basis tree, 1..6 random pending changes); case = (scenario, subset of the "
-        "atomic shelvable items: add / delete / rename / kind / target / each text hunk); all subsets of <= 6 items, "
-        "sampled above; non-trivial = the subset is non-empty and proper or mixes aspects of one id; distinct by "
-        "(basis, working tree, selection)")
+RULE = ("scenario = (tree format, random basis tree, 2..6 random pending changes, two of them forced so that every kind "
+        "of change — incl. >= 2 distant hunks, name swaps, moves into added directories, missing files, dir <-> file — "
+        "appears in every run); case = (scenario, subset of the atomic shelvable items: add / delete / rename / kind / "
+        "target / each text hunk); all subsets of <= 6 items, sampled above, closed or not; non-trivial = the subset is "
+        "non-empty; distinct by (basis, working tree, missing set, selection)")
 ASSUMPTIONS = [
     "the text merge synchronises on the unchanged gaps between hunks, i.e. merging two texts that differ from the basis in "
     "disjoint hunks is chunk-wise (checked per case: the real shelf text and the real unshelved text are compared with the model)",
-    "a versioned file that is missing from disk is treated as deleted (iter_changes reports kind None); after unshelve it is "
-    "unversioned instead of missing; an added file that is missing, and a `remove --keep` copy that was edited, are not generated",
-    "selections are closed under their dependencies (remaining tree and stored tree are well-formed); the others form a counted "
-    "excluded stream compared on accept / reject and on the remaining working tree only",
+    "a versioned file that is missing from disk is an absent entry plus a bit in a separate `missing` set (model: shelveMissing / "
+    "unshelveMissing; oracle: the set of versioned-but-missing ids after shelve and after unshelve); an added file that is "
+    "missing, and a `remove --keep` copy that was edited, are not generated",
+    "for a selection that is not closed (the tree to be stored is not a tree) the model only says: refused (closedCheck) or "
+    "accepted with the remaining working tree and an unreadable shelf (`?`); what the real code then does on unshelve "
+    "(NoFinalPath, conflicts, a different tree) is judged by the oracle alone (family unclosed-selection-accepted)",
+    "a tree without commits (no root in the basis) is outside the model's trees: oracle-only stream run_empty_basis",
     "git working trees refuse shelving (ShelvingUnsupported): checked, nothing else to verify there",
 ]
 TRUSTED = [
@@ -113,7 +164,7 @@ TRUSTED = [
 ]
 
 ROOT = b"TREE_ROOT"
-NAMES = ["a", "b", "c", "d", "e", "f", "g", "h"]
+NAMES = ["a", "b", "c", "d", "e", "f", "g", "h", "i", "j", "k", "l"]
 
 
 # --------------------------------------------------------------------------
@@ -196,7 +247,9 @@ class Builder:
     def dirs(self, exclude_under=None):
         out = []
         for fid, (path, kind, parent) in self.paths().items():
-            if self.disk_kind(path) != "directory":
+            # (a versioned FILE whose place on disk is now taken by a directory is not a directory of the tree:
+            # moving something into it makes the compiled inventory panic)
+            if kind != "directory" or self.disk_kind(path) != "directory":
                 continue
             if exclude_under is not None and (path == exclude_under or path.startswith(exclude_under + "/")):
                 continue
@@ -254,6 +307,99 @@ class Builder:
         os.chmod(p, stat.S_IMODE(mode))
         self.ops.append("edit")
         return path
+
+    def edit_multi(self):
+        """>= 2 distant hunks in one text (what the both-sides branch of the chunk-wise merge needs)"""
+        c = [(fid, path) for fid, (path, kind, parent) in sorted(self.paths().items())
+             if path != "" and self.disk_kind(path) == "file"]
+        c = [(fid, path) for fid, path in c
+             if len(open(_join(self.d, path), "rb").read().splitlines()) >= 20
+             and b"\x00" not in open(_join(self.d, path), "rb").read()]
+        if not c:
+            return None
+        fid, path = self.rng.choice(c)
+        p = _join(self.d, path)
+        lines = open(p, "rb").read().splitlines(True)
+        n = len(lines)
+        spots = [1, n // 2, n - 3] if self.rng.random() < 0.5 else [2, n - 2]
+        for j, pos in enumerate(reversed(spots)):
+            r = self.rng.random()
+            if r < 0.5:
+                lines[pos] = b"multi %d.%d\n" % (self.n, j)
+            elif r < 0.8:
+                lines[pos:pos] = [b"multi-ins %d.%d\n" % (self.n, j)]
+            else:
+                del lines[pos]
+        self.n += 1
+        mode = os.stat(p).st_mode
+        with open(p, "wb") as f:
+            f.write(b"".join(lines))
+        os.chmod(p, stat.S_IMODE(mode))
+        self.ops.append("edit-multi")
+        return path
+
+    def swap(self):
+        """exchange the places of two versioned entries (two renames that depend on each other)"""
+        c = [(fid, path) for fid, (path, kind, parent) in sorted(self.paths().items())
+             if path != "" and self.disk_kind(path) in ("file", "symlink")]
+        if len(c) < 2:
+            return None
+        (f1, p1), (f2, p2) = self.rng.sample(c, 2)
+        tmp = "swap-tmp-%d" % self.n
+        self.n += 1
+        self.wt.rename_one(p1, tmp)
+        self.wt.rename_one(p2, p1)
+        self.wt.rename_one(tmp, p2)
+        self.ops.append("swap")
+        return p1
+
+    def move_into_new_dir(self):
+        """add a directory and move an existing entry into it (the move depends on the addition)"""
+        fid, path = self.pick(["file", "symlink"])
+        if path is None:
+            return None
+        nd = self.add(kind="directory")
+        if nd is None or nd == path or nd.startswith(path + "/"):
+            return None
+        self.wt.rename_one(path, nd + "/" + os.path.basename(path))
+        self.ops.append("move-into-new-dir")
+        return path
+
+    def vacate_dir_to_file(self):
+        """move every child of a directory into a newly added directory and put a file in the emptied directory's
+        place: the kind change depends on the moves"""
+        c = []
+        for fid, (path, kind, parent) in sorted(self.paths().items()):
+            if path == "" or kind != "directory" or self.disk_kind(path) != "directory":
+                continue
+            kids = os.listdir(_join(self.d, path))
+            if kids and all(self.disk_kind(path + "/" + k) in ("file", "symlink") for k in kids):
+                c.append(path)
+        if not c:
+            return None
+        path = self.rng.choice(c)
+        nd = self.add(kind="directory")
+        if nd is None or nd == path or nd.startswith(path + "/"):
+            return None
+        for k in sorted(os.listdir(_join(self.d, path))):
+            if self.wt.is_versioned(path + "/" + k):
+                self.wt.rename_one(path + "/" + k, nd + "/" + k)
+            else:
+                os.unlink(_join(self.d, path + "/" + k))
+        os.rmdir(_join(self.d, path))
+        with open(_join(self.d, path), "wb") as f:
+            f.write(b"was a dir with children\n")
+        self.ops.append("vacate-dir-to-file")
+        return path
+
+    def delete_missing(self):
+        return self.delete(mode="missing")
+
+    def kind_file_dir(self):
+        return self.kind(want="file-dir")
+
+    def kind_dir_file(self):
+        return self.kind(want="dir-file")
 
     def binary(self):
         fid, path = self.pick(["file"])
@@ -386,16 +532,21 @@ class Builder:
         self.ops.append("chmod")
         return path
 
-    def kind(self):
+    def kind(self, want=None):
         rng = self.rng
-        fid, path = self.pick(["file", "symlink", "directory"])
+        if want == "dir-file":
+            c = [(fid, path) for fid, (path, kind, parent) in sorted(self.paths().items())
+                 if path != "" and self.disk_kind(path) == "directory" and not os.listdir(_join(self.d, path))]
+            fid, path = rng.choice(c) if c else (None, None)
+        else:
+            fid, path = self.pick(["file"] if want == "file-dir" else ["file", "symlink", "directory"])
         if path is None:
             return None
         p = _join(self.d, path)
         k = self.disk_kind(path)
         if k == "file":
             os.unlink(p)
-            if rng.random() < 0.6:
+            if want != "file-dir" and rng.random() < 0.6:
                 os.symlink("was-file", p)
                 self.ops.append("kind-file-symlink")
             else:
@@ -419,7 +570,9 @@ class Builder:
 
 
 OPS = ["edit", "edit", "edit", "add", "add", "delete", "delete", "rename", "move", "chmod", "kind", "retarget",
-       "binary", "rename+edit", "add-dir-with-children", "chmod+edit", "replace"]
+       "binary", "rename+edit", "add-dir-with-children", "chmod+edit", "replace",
+       "edit_multi", "edit_multi", "swap", "move_into_new_dir", "delete_missing", "kind_file_dir", "kind_dir_file",
+       "vacate_dir_to_file"]
 
 
 def build_scenario(seedt, root=None):
@@ -435,6 +588,7 @@ def build_scenario(seedt, root=None):
     # so that every kind of pending change is applicable
     dpath = b.add(kind="directory", parent="")
     b.add(kind="file", parent=dpath)
+    b.add(kind="directory", parent="")        # stays empty: can become a file
     b.add(kind="file", parent="", exec_=True)
     b.add(kind="symlink")
     p0 = b.add(kind="file", parent="", exec_=False)
@@ -445,13 +599,14 @@ def build_scenario(seedt, root=None):
     wt.commit("base", rev_id=b"rev-base", timestamp=1000000000, timezone=0, committer="V <v@e.c>")
     b.ops = []
     b.basis_ids = set(b.paths())
-    want = rng.randint(1, 4)
+    want = rng.randint(2, 4)
     tries = 0
     distinct = sorted(set(OPS))
-    forced = distinct[(seedt[0] + seedt[2]) % len(distinct)]    # every kind of change appears in every run
+    # two forced kinds of change per scenario: with >= 16 scenarios every kind appears in every run
+    forced = [distinct[(seedt[0] + seedt[2]) % len(distinct)], distinct[(seedt[0] + seedt[2] + 16) % len(distinct)]]
     while len(b.ops) < want and tries < 20:
         tries += 1
-        op = forced if tries == 1 else rng.choice(OPS)
+        op = forced[tries - 1] if tries <= 2 else rng.choice(OPS)
         if op == "rename+edit":
             p = b.edit()
             if p is not None:
@@ -493,12 +648,18 @@ def _disk_entry(p):
 
 
 def dump_wt(d):
-    """(entries, missing, strays): entries = {file_id: (parent_id, name, kind, content, exec)} from the
-    inventory + disk; versioned paths that are not on disk are listed in `missing` (and left out)"""
+    """(entries, missing, strays, conflicts, recorded exec bits, changes): entries = {file_id: (parent_id, name,
+    kind, content, exec)} from the inventory + disk; versioned paths that are not on disk are listed in `missing`
+    (and left out); changes = what the real iter_changes(basis) reports, canonical"""
     from breezy.workingtree import WorkingTree
     wt = WorkingTree.open(d)
     ents, missing, vpaths, rec = {}, [], set(), {}
     with wt.lock_read():
+        changes = sorted(
+            (c.file_id.decode("latin-1"), list(c.path), bool(c.changed_content), list(c.versioned),
+             [x.decode("latin-1") if x is not None else None for x in c.parent_id], list(c.name), list(c.kind),
+             list(c.executable))
+            for c in wt.iter_changes(wt.basis_tree()))
         for path, ie in wt.iter_entries_by_dir():
             vpaths.add(path)
             de = _disk_entry(_join(d, path))
@@ -520,7 +681,7 @@ def dump_wt(d):
             if r not in vpaths:
                 strays[r] = _disk_entry(os.path.join(dirpath, n))[:2]
         dirnames[:] = [x for x in dirnames if not os.path.islink(os.path.join(dirpath, x))]
-    return ents, sorted(missing), strays, confl, rec
+    return ents, sorted(missing), strays, confl, rec, changes
 
 
 def dump_preview(tree):
@@ -662,7 +823,7 @@ def analyse(sc):
     from breezy.workingtree import WorkingTree
     from breezy import shelf
     d = sc["dir"]
-    W, missing, strays, confl, rec = dump_wt(d)
+    W, missing, strays, confl, rec, changes0 = dump_wt(d)
     wt = WorkingTree.open(d)
     items, hunks, changes = [], {}, []
     with wt.lock_tree_write():
@@ -693,7 +854,8 @@ def analyse(sc):
                             items.append(("hunk", fid, k))
         finally:
             cr.finalize()
-    return dict(B=B, W=W, missing=missing, strays=strays, items=items, hunks=hunks, changes=changes, rec=rec)
+    return dict(B=B, W=W, missing=missing, strays=strays, items=items, hunks=hunks, changes=changes, rec=rec,
+                iter_changes=changes0)
 
 
 def err_kind(e):
@@ -766,7 +928,7 @@ def run_case(arg):
     try:
         res["d1"] = dump_wt(d)
     except Exception as e:  # noqa  (an unreadable working tree is reported by the oracle)
-        res["d1"] = ({}, [], {}, "corrupt", {}, "%s: %s" % (type(e).__name__, str(e)[:200]))
+        res["d1"] = ({}, [], {}, "corrupt", {}, [], "%s: %s" % (type(e).__name__, str(e)[:200]))
         shutil.rmtree(d, ignore_errors=True)
         return res
     if res["err"] is None:
@@ -909,7 +1071,7 @@ class Enc:
     def __init__(self, an):
         self.an = an
         B, W = an["B"], an["W"]
-        fids = sorted(set(B) | set(W), key=lambda f: (f != ROOT, f))
+        fids = sorted(set(B) | set(W) | set(an["missing"]), key=lambda f: (f != ROOT, f))
         self.ids = {f: i for i, f in enumerate(fids)}
         self.fids = fids
         names = sorted({e[1] for e in list(B.values()) + list(W.values())})
@@ -974,6 +1136,10 @@ class Enc:
                                            "T" if fid in kept and "delete" in kinds else "F"))
         return ";".join(out) or "-"
 
+    @staticmethod
+    def idlist(s):
+        return [] if s == "-" else sorted(int(x) for x in s.split(","))
+
     def decode(self, s):
         """model tree -> {fid: (parent, name, kind, content, exec)}"""
         out = {}
@@ -999,8 +1165,9 @@ def kept_ids(an):
 def model_line(enc, an, sel, via, variant, rec1):
     ids = ",".join(str(i) for i in range(len(enc.fids)))
     rec = ",".join(str(enc.ids[f]) for f in sorted(rec1, key=lambda f: enc.ids.get(f, -1)) if rec1[f] and f in enc.ids) or "-"
-    return "shelve %s %s %s %s %s %s" % (variant, ids, enc.tree(an["B"], 0), enc.tree(an["W"], 1),
-                                        enc.sel(sel, via, kept_ids(an)), rec)
+    miss = ",".join(str(i) for i in sorted(enc.ids[f] for f in an["missing"])) or "-"
+    return "shelve %s %s %s %s %s %s %s" % (variant, ids, enc.tree(an["B"], 0), enc.tree(an["W"], 1),
+                                           enc.sel(sel, via, kept_ids(an)), rec, miss)
 
 
 # --------------------------------------------------------------------------
@@ -1037,7 +1204,7 @@ def _shelve_all_unshelve(wt):
 
 
 def probe_variant():
-    """(keepExec, freshExec) of the code under test, from two one-file experiments"""
+    """(keepExec, freshExec, pathCheck, closedCheck) of the code under test, from four small experiments"""
     wt = _probe_tree()
     d = wt.basedir
     with open(d + "/n", "wb") as f:
@@ -1072,7 +1239,33 @@ def probe_variant():
         pathcheck = dump_wt(d)[0].get(b"t-id", (None,) * 5)[3] == b"a\nb\nc\n"
     except Exception:  # noqa
         pathcheck = False
-    return keep, fresh, pathcheck
+    return keep, fresh, pathcheck, probe_closed_check()
+
+
+def probe_closed_check():
+    """does the code under test refuse a selection that is not closed?  A file is added in an added directory and
+    only the file's addition is selected: True = refused with the tree unchanged (write_shelf checks the tree to
+    be stored), False = accepted (/repo HEAD: the file leaves the tree and the shelf cannot be read back)"""
+    from breezy import shelf
+    wt = _probe_tree()
+    d = wt.basedir
+    os.mkdir(d + "/nd")
+    with open(d + "/nd/f", "wb") as f:
+        f.write(b"new\n")
+    wt.add(["nd", "nd/f"], ids=[b"nd-id", b"f-id"])
+    try:
+        with wt.lock_tree_write():
+            cr = shelf.ShelfCreator(wt, wt.basis_tree())
+            try:
+                for ch in cr.iter_shelvable():
+                    if ch[1] == b"f-id":
+                        cr.shelve_change(ch)
+                wt.get_shelf_manager().shelve_changes(cr)
+            finally:
+                cr.finalize()
+        return False
+    except Exception:  # noqa
+        return os.path.exists(d + "/nd/f")
 
 
 # --------------------------------------------------------------------------
@@ -1148,6 +1341,43 @@ def subsets_of(ctx, n, cap):
     return allsub, ctxfull
 
 
+FAM_UNCLOSED = "unclosed-selection-accepted"
+FAM_MISSING = "missing-file-unversioned-by-unshelve"
+FAM_EMPTY = "empty-basis-shelf-unreadable"
+
+
+def why_not_tree(t):
+    """the reasons for which an id -> entry map is not a tree (for the report text)"""
+    out = set()
+    if len([i for i, e in t.items() if e[0] is None]) != 1:
+        out.add("roots")
+    seen = set()
+    for i, e in t.items():
+        if e[0] is None:
+            continue
+        pe = t.get(e[0])
+        if pe is None:
+            out.add("entry whose parent is absent")
+        elif pe[2] != "d":
+            out.add("entry whose parent is not a directory")
+        if (e[0], e[1]) in seen:
+            out.add("two entries with one name")
+        seen.add((e[0], e[1]))
+    for i in t:
+        j, n = i, 0
+        while j in t and t[j][0] is not None:
+            j = t[j][0]
+            n += 1
+            if n > len(t):
+                out.add("parent loop")
+                break
+    return sorted(out)
+
+
+def changed_ids(changes):
+    return sorted({c[0] for c in changes})
+
+
 def check_result(ctx, sc, an, enc, sel, via, res, variant):
     """oracle + model comparison of one case"""
     chosen = [an["items"][i] for i in sel]
@@ -1155,6 +1385,7 @@ def check_result(ctx, sc, an, enc, sel, via, res, variant):
                 items=[(k, f.decode(), j) for k, f, j in chosen], ops=sc["ops"])
     nontrivial = 0 < len(sel)
     ctx.case(dict(B=enc.tree(an["B"], 0), W=enc.tree(an["W"], 1), sel=enc.sel(sel, via, kept_ids(an)),
+                  miss=sorted(f.decode() for f in an["missing"]),
                   texts=sorted(h.hex()[:16] for h in enc.codes)), nontrivial=nontrivial)
     for k, f, j in chosen:
         ctx.count("item:" + k)
@@ -1163,21 +1394,30 @@ def check_result(ctx, sc, an, enc, sel, via, res, variant):
     expS = expect_shelf(an, sel)
     is_closed = py_wf(expW1) and py_wf(expS)
     w1, rec1 = res["d1"][0], res["d1"][4]
-    reocc = reoccupied(an, sel)
+    by = selected_kinds(an, sel)
+    # versioned files that are missing from disk: a shelved deletion re-creates the file, the others stay missing
+    exp_missing1 = sorted(f for f in an["missing"] if "delete" not in by.get(f, ()))
+    sel_missing = sorted(f for f in an["missing"] if "delete" in by.get(f, ()))
+    if sel_missing:
+        ctx.count("selected-deletion-of-missing-file")
+    # a stored tree that is not a tree: the family of every failure that follows from accepting the selection
+    fam_unclosed = FAM_UNCLOSED if py_wf(expW1) and not py_wf(expS) else None
     # ---- oracle ----------------------------------------------------------
     if res["err"] is not None:
         ctx.count("refused:" + res["err"])
-        if w1 != an["W"] or res["d1"][1] != an["missing"]:
+        if w1 != an["W"] or res["d1"][1] != an["missing"] or res["d1"][5] != an["iter_changes"]:
             ctx.violation(case, "shelving failed with %s but the working tree changed: %r" % (
                 res["err"], [(f, a) for f, a, e, g in diff_dumps(an["W"], w1)][:4]), family=None)
         if res["ids1"] != res["ids0"]:
             ctx.count("stale-shelf-left-by-refused-transform")
-        if py_wf(expW1):
-            ctx.violation(case, "a selection whose remaining tree is well-formed was refused: %s %s" % (res["err"], res.get("errtext")),
-                          family=None)
+        if is_closed:
+            ctx.violation(case, "a closed selection (remaining tree and stored tree are trees) was refused: %s %s" % (
+                res["err"], res.get("errtext")), family=None)
+        elif py_wf(expW1):
+            ctx.count("refused:selection-not-closed")
     else:
         if res["d1"][3] == "corrupt":
-            ctx.violation(case, "the working tree cannot be read after shelving: %s" % res["d1"][5],
+            ctx.violation(case, "the working tree cannot be read after shelving: %s" % res["d1"][6],
                           family=None)
             res["err"] = "E:Corrupt"
             return case, model_line(enc, an, sel, via, variant, {}), is_closed
@@ -1186,6 +1426,15 @@ def check_result(ctx, sc, an, enc, sel, via, res, variant):
             ctx.violation(case, "after shelving the tree is not (basis for the selected changes, working tree for the others): "
                           "%r" % ([(f.decode(), a, e and e[4], g and g[4]) if a == ["exec"] else (f.decode(), a) for f, a, e, g in dd][:4],),
                           family=None)
+        if res["d1"][1] != exp_missing1:
+            ctx.violation(case, "after shelving the versioned-but-missing files are %r, expected %r (a shelved deletion "
+                          "re-creates the file, every other missing file stays missing and versioned)" % (
+                              res["d1"][1], exp_missing1), family=None)
+        # the same through the real iter_changes: exactly the ids that still differ from the basis are reported
+        exp_changed = sorted({f.decode("latin-1") for f in set(expW1) | set(an["B"]) if expW1.get(f) != an["B"].get(f)})
+        if not dd and res["d1"][1] == exp_missing1 and changed_ids(res["d1"][5]) != exp_changed:
+            ctx.violation(case, "after shelving iter_changes reports changes for %r, the unselected changes are in %r" % (
+                changed_ids(res["d1"][5]), exp_changed), family=None)
         new = set(res["d1"][2]) - set(an["strays"])
         if new:
             ctx.violation(case, "shelving left new unversioned files: %r" % sorted(new))
@@ -1193,26 +1442,60 @@ def check_result(ctx, sc, an, enc, sel, via, res, variant):
         if sid in res["ids0"] or any(sid <= x for x in res["ids0"]) or sorted(res["ids0"] + [sid]) != res["ids1"]:
             ctx.violation(case, "shelf id %r not fresh / listing wrong: before %r after %r" % (sid, res["ids0"], res["ids1"]))
         if not is_closed:
-            ctx.count("excluded:selection-not-closed")
-            ctx.count("excluded-outcome:" + (res.get("uerr") or ("conflicts" if res.get("nconf") else "quiet")))
-        elif "S" in res and diff_dumps(expS, res["S"]):
+            ctx.count("accepted:selection-not-closed")
+            ctx.count("unclosed-outcome:" + (res.get("uerr") or ("conflicts" if res.get("nconf") else "quiet")))
+        unclosed_note = "" if fam_unclosed is None else (
+            " [the selection was accepted although the tree to be stored (basis + selected changes) is not a tree: %s]"
+            % ", ".join(why_not_tree(expS)))
+        if is_closed and "S" in res and diff_dumps(expS, res["S"]):
             dd = diff_dumps(expS, res["S"])
             ctx.violation(case, "the stored shelf tree is not (basis + exactly the selected changes): %r" % (
                 [(f.decode(), a) for f, a, e, g in dd][:4],), family=None)
         elif "uerr" in res:
-            ctx.violation(case, "unshelving failed: %s %s" % (res["uerr"], res.get("uerrtext")), family=None)
+            ctx.violation(case, "the changes left the tree but the shelf cannot be unshelved: %s %s%s" % (
+                res["uerr"], (res.get("uerrtext") or "").split("\n")[0], unclosed_note), family=fam_unclosed)
         else:
             w2 = res["d2"][0]
             dd = diff_dumps(an["W"], w2)
+            bad = False
             if dd:
-                ctx.violation(case, "unshelving onto the unchanged tree does not restore it: %r" % (
-                    [(f.decode(), a, e and e[4], g and g[4]) if a == ["exec"] else (f.decode(), a) for f, a, e, g in dd][:4],),
-                    family=None)
+                bad = True
+                ctx.violation(case, "unshelving onto the unchanged tree does not restore it: %r%s" % (
+                    [(f.decode(), a, e and e[4], g and g[4]) if a == ["exec"] else (f.decode(), a) for f, a, e, g in dd][:4],
+                    unclosed_note), family=fam_unclosed)
             if res["nconf"] or res["d2"][3]:
-                ctx.violation(case, "unshelving reported %r conflicts" % (res["nconf"] or res["d2"][3]), family=None)
+                bad = True
+                ctx.violation(case, "unshelving reported %r conflicts%s" % (res["nconf"] or res["d2"][3], unclosed_note),
+                              family=fam_unclosed)
             new = set(res["d2"][2]) - set(an["strays"])
             if new:
-                ctx.violation(case, "unshelving left new unversioned files: %r" % sorted(new))
+                bad = True
+                ctx.violation(case, "unshelving left new unversioned files: %r%s" % (sorted(new), unclosed_note),
+                              family=fam_unclosed)
+            # versioning: the files that were versioned-but-missing before must be so again
+            m2 = res["d2"][1]
+            fam_missing = None
+            if m2 != an["missing"]:
+                lost = sorted(set(an["missing"]) - set(m2))
+                if (not bad and lost and lost == sel_missing and not set(m2) - set(an["missing"])
+                        and not any(f in w2 for f in lost)):
+                    fam_missing = FAM_MISSING
+                bad = True
+                ctx.violation(case, "unshelving does not restore the versioning: the files %r were versioned (missing from "
+                              "disk) before shelving and are unversioned after unshelving; versioned-but-missing before %r, "
+                              "after %r%s" % ([f.decode() for f in lost], an["missing"], m2, unclosed_note),
+                              family=fam_missing or fam_unclosed)
+            # ... and the tree must report the same changes as before shelving (the real iter_changes)
+            c2 = res["d2"][5]
+            if fam_missing:
+                gone = {f.decode("latin-1") for f in sel_missing}
+                same = [c for c in c2 if c[0] not in gone] == [c for c in an["iter_changes"] if c[0] not in gone]
+            else:
+                same = c2 == an["iter_changes"]
+            if not same and not bad:
+                diff = [c for c in c2 if c not in an["iter_changes"]] + [c for c in an["iter_changes"] if c not in c2]
+                ctx.violation(case, "after unshelving iter_changes differs from before shelving: %r%s" % (
+                    diff[:3], unclosed_note), family=fam_unclosed)
             if res["ids2"] != res["ids0"]:
                 ctx.violation(case, "shelf list after unshelve+delete %r != before %r" % (res["ids2"], res["ids0"]))
             if res.get("msg") != "msg %s" % (list(sel),):
@@ -1229,18 +1512,30 @@ def compare_model(ctx, enc, case, line, reply, res, is_closed):
         if reply == "E:Reoccupied":
             # the defective existing_path handling: any refusal / corruption is "the" outcome
             impl = "E:Reoccupied"
+        if reply == "E:Unclosed" and impl == "E:Malformed":
+            # write_shelf and the work transform refuse with the same exception class
+            impl = "E:Unclosed"
+        if reply == "E:ResolveCrash" and impl == "E:AttributeError" and "supports_setting_file_ids" in (res.get("errtext") or ""):
+            # resolve_conflicts on the shelf transform: the 'non-directory parent' resolver asks a revision tree
+            # for supports_setting_file_ids (nothing was applied yet)
+            impl = "E:ResolveCrash"
         if reply != impl:
             ctx.mismatch(case, impl, reply, line=line)
         return
     if not reply.startswith("ok "):
         ctx.mismatch(case, "ok", reply, line=line)
         return
-    _, closed, w1, s, u, nconf = reply.split(" ")
+    _, closed, w1, s, u, nconf, m1, m2 = reply.split(" ")
     if (closed == "T") != is_closed:
         ctx.mismatch(case, "closed=%s (harness)" % is_closed, "closed=%s" % closed, line=line)
     mw1 = enc.decode(w1)
     if mw1 != res["d1"][0]:
         ctx.mismatch(case, dict(stage="work tree after shelve", tree=_short(res["d1"][0])), _short(mw1), line=line)
+    miss1 = sorted(enc.ids[f] for f in res["d1"][1])
+    if miss1 != enc.idlist(m1):
+        ctx.mismatch(case, dict(stage="missing after shelve", ids=miss1), m1, line=line)
+    if (u == "?") != (closed != "T"):
+        ctx.mismatch(case, "stored tree readable iff closed", reply[:40], line=line)
     if closed != "T":
         return
     if "S" in res and enc.decode(s) != res["S"]:
@@ -1250,6 +1545,9 @@ def compare_model(ctx, enc, case, line, reply, res, is_closed):
             ctx.mismatch(case, dict(stage="after unshelve", tree=_short(res["d2"][0])), _short(enc.decode(u)), line=line)
         if int(nconf) != len(res["nconf"] or []):
             ctx.mismatch(case, dict(stage="conflicts", n=len(res["nconf"] or [])), nconf, line=line)
+        miss2 = sorted(enc.ids[f] for f in res["d2"][1])
+        if miss2 != enc.idlist(m2):
+            ctx.mismatch(case, dict(stage="missing after unshelve", ids=miss2), m2, line=line)
     elif "uerr" in res and not reoccupied(enc.an, case["sel"]):
         # (a failed unshelve in the reoccupied-path family is already reported by the oracle under its family)
         ctx.mismatch(case, dict(stage="unshelve", err=res["uerr"]), "ok", line=line)
@@ -1263,6 +1561,11 @@ def run_scenarios(ctx, seeds, cap, variant):
             an = analyse(sc)
         except Exception as e:  # noqa
             ctx.count("scenario-build-failed:" + type(e).__name__)
+            continue
+        except BaseException as e:  # noqa  (pyo3 PanicException derives from BaseException)
+            if type(e).__name__ != "PanicException":
+                raise
+            ctx.count("scenario-build-failed:PanicException")
             continue
         for o in sc["ops"]:
             ctx.count("op:" + o)
@@ -1447,6 +1750,7 @@ def run_manager_long(ctx, name, ops):
     held = {}        # id -> (message, text of t stored on that shelf)
     done = []
     lines, impls, cases = [], [], []
+    cops = []        # the same operations for the payload model (payload = step number)
 
     def fail(what):
         ctx.violation(dict(mgr_ops=list(ops), sequence=name, failed_after=list(done)), what)
@@ -1466,6 +1770,7 @@ def run_manager_long(ctx, name, ops):
                 finally:
                     cr.finalize()
             done.append("n->%d" % sid)
+            cops.append("n%d" % step)
             ctx.count("mgr-long:new")
             lines.append("mgr %s n" % (",".join(map(str, before)) or "-"))
             cases.append(dict(mgr_ops=list(ops), sequence=name, step=step))
@@ -1478,6 +1783,7 @@ def run_manager_long(ctx, name, ops):
             held[sid] = (msg, text)
         else:
             k = int(op[1:])
+            cops.append("d%d" % k)
             try:
                 mgr.delete_shelf(k)
                 done.append("d%d" % k)
@@ -1517,11 +1823,99 @@ def run_manager_long(ctx, name, ops):
         if len(ctx.violations) > 40:
             break
     if ctx.model_available and lines:
-        for c, l, i, m in zip(cases, lines, impls, ctx.model(lines)):
+        # the whole sequence against the payload model: which shelf holds which change at the end
+        cline = "mgrc - %s" % (",".join(cops) or "-")
+        final = ",".join("%d:%s" % (k, held[k][0].split(" ")[1]) for k in sorted(held, reverse=True)
+                         if isinstance(held[k][0], str) and held[k][0].startswith("change ")) or "-"
+        outs = ctx.model(lines + [cline])
+        for c, l, i, m in zip(cases, lines, impls, outs):
             ctx.traces += 1
             if i != m.split(" ")[0]:
                 ctx.mismatch(c, i, m, line=l)
+        ctx.traces += 1
+        got = ",".join(sorted(outs[-1].split(","), key=lambda x: -int(x.split(":")[0]))) if outs[-1] not in ("-", "bad-op") else outs[-1]
+        if got != final:
+            ctx.mismatch(dict(mgr_ops=list(ops), sequence=name, stage="shelves and their payload at the end"), final, got, line=cline)
     shutil.rmtree(d, ignore_errors=True)
+
+
+def run_empty_basis(ctx):
+    """a tree without any commit: the basis has no root and the addition of the root is never shelved (write_shelf
+    supplies it).  Oracle only (the model's trees have a root): every closed subset of the additions is shelved,
+    leaves exactly the others, and unshelving restores the tree; a selection that is not closed (a child without
+    its added directory) is either refused with the tree unchanged or belongs to the unclosed-selection family"""
+    import itertools
+    from breezy import shelf
+    from breezy.workingtree import WorkingTree
+    names = ["f", "d", "d/g", "d/e", "d/e/h"]
+    kinds = {"f": "file", "d": "dir", "d/g": "file", "d/e": "dir", "d/e/h": "file"}
+    ids = {n: ("id-" + n.replace("/", "_")).encode() for n in names}
+    subsets = [c for r in range(len(names) + 1) for c in itertools.combinations(names, r)]
+    if ctx.tier != "thorough":
+        subsets = [subsets[0], subsets[-1]] + ctx.rng.sample(subsets[1:-1], 6)
+    for sel in subsets:
+        wt = env.make_tree("2a")
+        d = wt.basedir
+        for n in names:
+            if kinds[n] == "dir":
+                os.mkdir(os.path.join(d, n))
+            else:
+                with open(os.path.join(d, n), "wb") as f:
+                    f.write(n.encode() + b"\n")
+        wt.add(names, ids=[ids[n] for n in names])
+        before = dump_wt(d)
+        case = dict(empty_basis=True, sel=list(sel))
+        closed = all(os.path.dirname(n) in ("",) + sel for n in sel)
+        ctx.case(case, nontrivial=bool(sel))
+        ctx.count("empty-basis:%s" % ("closed" if closed else "not-closed"))
+        err = sid = None
+        try:
+            with wt.lock_tree_write():
+                cr = shelf.ShelfCreator(wt, wt.basis_tree())
+                try:
+                    for ch in cr.iter_shelvable():
+                        if ch[1] in [ids[n] for n in sel]:
+                            cr.shelve_change(ch)
+                    sid = wt.get_shelf_manager().shelve_changes(cr)
+                finally:
+                    cr.finalize()
+        except Exception as e:  # noqa
+            err = err_kind(e)
+        mid = dump_wt(d)
+        if err is not None:
+            ctx.count("empty-basis-refused:" + err)
+            if mid[:3] != before[:3]:
+                ctx.violation(case, "empty basis: shelving failed with %s but the tree changed" % err)
+            # (a selection whose remaining tree lacks an added directory is refused by the work transform)
+            if closed and all(not (m.startswith(n + "/")) for n in sel for m in names if m not in sel):
+                ctx.violation(case, "empty basis: a closed selection was refused: %s" % err)
+            shutil.rmtree(d, ignore_errors=True)
+            continue
+        gone = {ids[n] for n in sel}
+        if set(mid[0]) != set(before[0]) - gone:
+            ctx.violation(case, "empty basis: after shelving the versioned ids are %r, expected %r" % (
+                sorted(mid[0]), sorted(set(before[0]) - gone)))
+        fam = None if closed else FAM_UNCLOSED
+        try:
+            wt2 = WorkingTree.open(d)
+            with wt2.lock_tree_write():
+                u = wt2.get_shelf_manager().get_unshelver(sid)
+                try:
+                    nconf = u.make_merger().do_merge()
+                finally:
+                    u.finalize()
+            after = dump_wt(d)
+            if nconf or after[0] != before[0] or after[1] != before[1] or after[5] != before[5]:
+                ctx.violation(case, "empty basis: unshelving does not restore the tree (conflicts %r, differing ids %r)" % (
+                    nconf, [f.decode() for f, a, e, g in diff_dumps(before[0], after[0])]), family=fam)
+        except Exception as e:  # noqa
+            if fam is None and sel and err_kind(e) == "E:NoFinalPath":
+                # a closed selection in a tree without commits: the stored root has no name
+                fam = FAM_EMPTY
+            ctx.violation(case, "tree without commits: add %s; shelve %s: the additions left the tree but the shelf "
+                          "cannot be unshelved: %s %s" % (names, list(sel), err_kind(e), str(e).split("\n")[0][:120]),
+                          family=fam)
+        shutil.rmtree(d, ignore_errors=True)
 
 
 def run_git(ctx):
@@ -1551,10 +1945,27 @@ def run_git(ctx):
     shutil.rmtree(d, ignore_errors=True)
 
 
+PROBE_INPUTS = dict(
+    keepExec="add an executable file n, shelve everything, unshelve: n is no longer executable",
+    freshExec="edit t and chmod +x t, shelve everything (the chmod stays), unshelve: t is no longer executable",
+    pathCheck="remove t, add a new file under the name t, shelve everything: refused, or t-id does not come back",
+)
+
+
 def run(ctx, nscen=None, cap=None):
-    keep, fresh, pathcheck = probe_variant()
-    variant = "".join("T" if x else "F" for x in (keep, fresh, pathcheck))
-    ctx.extra["variant"] = dict(keepExec=keep, freshExec=fresh, pathCheck=pathcheck)
+    keep, fresh, pathcheck, closedcheck = probe_variant()
+    variant = "".join("T" if x else "F" for x in (keep, fresh, pathcheck, closedcheck))
+    ctx.extra["variant"] = dict(keepExec=keep, freshExec=fresh, pathCheck=pathcheck, closedCheck=closedcheck)
+    # the theorems that speak about /repo are those of the repaired variant: a probe that selects a defective
+    # behaviour IS a concrete failing input of the property
+    for name, ok in (("keepExec", keep), ("freshExec", fresh), ("pathCheck", pathcheck)):
+        if not ok:
+            ctx.violation(dict(probe=name), "probe %s: %s" % (name, PROBE_INPUTS[name]), family=None)
+    if not closedcheck:
+        ctx.violation(dict(probe="closedCheck"),
+                      "mkdir nd; add nd nd/f; shelve only the addition of nd/f: accepted, nd/f leaves the tree and the shelf "
+                      "cannot be unshelved (the tree to be stored has a file whose parent directory is absent)",
+                      family=FAM_UNCLOSED)
     nscen = nscen or ctx.pick(16, 400)
     cap = cap or ctx.pick(20, 64)
     seeds = [(ctx.seed, FORMATS[i % len(FORMATS)], i) for i in range(nscen)]
@@ -1563,7 +1974,12 @@ def run(ctx, nscen=None, cap=None):
         run_manager_long(ctx, name, ops)
     for i in range(ctx.pick(6, 30)):
         run_manager(ctx, i)
+    run_empty_basis(ctx)
     run_git(ctx)
+    fams = {}
+    for v in ctx.violations:
+        fams[str(v["family"])] = fams.get(str(v["family"]), 0) + 1
+    ctx.extra["violation_families"] = fams
 
 
 def widen(ctx):
@@ -1574,8 +1990,14 @@ def replay(ctx, case):
     if "mgr_ops" in case:
         run_manager_long(ctx, case.get("sequence", "replay"), case["mgr_ops"])
         return dict(case=case, oracle_failures=[v["what"] for v in ctx.violations])
+    if "empty_basis" in case:
+        return dict(case=case, note="re-run the check with the same seed (run_empty_basis enumerates the subsets of 5 additions)")
     if "scenario" not in case:
         return dict(case=case, note="short manager / git cases are replayed by re-running the check with the same seed")
+    if "probe" in case:
+        v = probe_variant()
+        return dict(case=case, variant=dict(zip(("keepExec", "freshExec", "pathCheck", "closedCheck"), v)),
+                    note="a False flag is the defective behaviour described in the violation text")
     variant = "".join("T" if x else "F" for x in probe_variant())
     sc = build_scenario(tuple(case["scenario"]))
     an = analyse(sc)
